@@ -1,6 +1,7 @@
 """Trace generation, reductions and scenario glue for the selector machine."""
 
 import copy
+import os
 
 import numpy as np
 
@@ -555,7 +556,14 @@ def gen_c08(rng, idx, tier, faults):
                     rec = {k: v for k, v in heap[xn].items() if k != "storage"}
                     rec["seed"] = _seed(rng)
                     seq.append({"op": "MUTATE", "h": xn, "recipe": rec})
-            seq.append({"op": "FIT", "obj": name, "X": xuse, "y": yn, "warm": si > 0, "env": mk_env()})
+            if faults and si > 0 and os.environ.get("HOSTSIM_WARM_AFTER_CRASH") == "1" and rng.random() < 0.1:
+                # experiment only (DESIGN 5.4): the continuation crashes at an arbitrary line and is retried
+                ce = dict(mk_env() or {})
+                ce["interrupt"] = {"exc": rng.choice(["KeyboardInterrupt", "MemoryError"]), "at": rng.randint(1, 300)}
+                seq.append({"op": "FIT", "obj": name, "X": xuse, "y": yn, "warm": True, "env": ce})
+                seq.append({"op": "FIT", "obj": name, "X": xuse, "y": yn, "warm": True, "env": mk_env(), "retry_after_crash": True})
+            else:
+                seq.append({"op": "FIT", "obj": name, "X": xuse, "y": yn, "warm": si > 0, "env": mk_env()})
             if rng.random() < 0.3:
                 seq.append(gen_read(rng, name, cls))
         xfin = xn + "c" if moved else xn
